@@ -8,7 +8,7 @@ V2 == ListV(<<S(<<119, 111, 114, 108, 100>>), I(3), MapV(<<k1>>, <<I(4)>>)>>)
 V3 == B(<<10, 20, 30, 40>>)
 GenValues == {V1, V2, V3}
 AllProducers == {"basic-any", "basic-typed", "bind", "decode-cbor", "decode-json"}
-GenProducers == IF ProducerSel = "all" THEN AllProducers ELSE {ProducerSel}
+GenProducers == IF ProducerSel = "all" THEN AllProducers ELSE {ProducerSel}     \* "gen": only by explicit selection
 GenOps == {"read", "iter-partial", "encode-cbor", "encode-json", "copy-extend-basic", "copy-extend-bind", "embed-extend",
            "assign-top-then-reset", "reset-reuse", "walk", "walk-subset", "transform", "store-load", "stale-assembler", "wrap-assign-mutate"}
 Emit == Done => PrintT(ToJson([first |-> nodes[1], steps |-> hist, nodes |-> nodes]))
